@@ -971,6 +971,15 @@ func c03GenT(out *emit.Out, p params, r *rand.Rand, cfg c03Cfg, exhaustive bool)
 				run(j.name, c03Edit{Kind: "inject", ToServer: ts, Idx: i, Data: j.data})
 			}
 		}
+		// injected handshake messages without a body, of every kind of type code (hello_request 0, the known ones, unassigned ones)
+		for ti, typ := range []byte{0, 1, 2, 4, 11, 12, 13, 15, 16, 20, 21, 255} {
+			for i := range recs {
+				if !exhaustive && typ != 0 && (i+ti+dir)%3 != 0 {
+					continue
+				}
+				run(fmt.Sprintf("inject-handshake-type-%d", typ), c03Edit{Kind: "inject", ToServer: ts, Idx: i, Data: c03Plain(22, []byte{typ, 0, 0, 0})})
+			}
+		}
 		run("inject-warning", c03Edit{Kind: "inject", ToServer: ts, Idx: len(recs) - 1, After: true, Data: warn})
 		// 16 and 17 warning alerts in a row before the second record
 		if len(recs) > 1 {
